@@ -89,6 +89,7 @@ def verus_name_selected(select, bname, vname):
     return False
 
 
+INV_CLAUSE = re.compile(r'\b(inv|wf)\(\)|\b(rdr|inbr|inb|readable)\s*\(|addr\(')
 MEM_CLAUSE = re.compile(r'\b(rdr|inbr|inb|readable)\s*\(|addr\([a-z_]+\)\s*%|align_of')
 
 
@@ -232,7 +233,8 @@ def decide_build(pid, spec, b, tier, oc, seed):
             # still an unverified function of this property's set: not this property's kind of failure
             oc.notes.append('ignored for %s (kind %s): %s::%s' % (pid, k, module, e['qual']))
             continue
-        if spec.get('mem_only') and not (k == 'precondition' and MEM_CLAUSE.search(e['clause_text'])):
+        if spec.get('mem_only') and not ((k == 'precondition' and MEM_CLAUSE.search(e['clause_text'])) or
+                                         (k in ('postcondition', 'invariant') and INV_CLAUSE.search(e['clause_text']))):
             continue
         if spec.get('non_mem') and k == 'precondition' and MEM_CLAUSE.search(e['clause_text']):
             continue
@@ -385,7 +387,7 @@ def main():
     json.dump(ev, open(os.path.join(VERIF, 'evidence', pid + '.json'), 'w'), indent=1)
     if oc.violations:
         import replayer_run
-        for n, v in enumerate(oc.violations):
+        for n, v in enumerate(oc.violations[:3]):
             found = replayer_run.search(pid, v, seed)
             path = write_replay(pid, v, n, found)
             tail = '' if (found and found.get('failing_input')) else ' no-failing-input-found'
